@@ -19,6 +19,7 @@ RULE = (
     "region -> some exception and no cell changed. Non-trivial: assignment onto a row with content overlapping or beyond the "
     "region, or growth, in a history of >=2 steps."
     ' Block-row objects are re-used across assignments (the very same FmtStr/str object assigned again), rows may contain double-width/combining/tab characters (one character per cell), arrays up to 30 columns.'
+    " Blocks also as tuples and as fsarray(rows, width) with a declared width beyond the longest row or equal to the region; constructor input as list/tuple/generator, width positional or keyword; ragged blocks onto rows filled to the right edge; 'repaint' steps (same region, same characters, other or no formatting); zero-column regions must still grow the array; len()/height/shape agree with the rows."
 )
 ASSUMPTIONS = [
     "neutral zones (statement silent/contradictory): a row longer than the region that only reaches blank cells inside the width; empty regions with non-empty blocks; a[r] = x; column bounds beyond the width",
